@@ -210,9 +210,10 @@ pub fn read_tree(tree: &MergedTree) -> TreeM {
 pub fn rp(q: &P) -> RepoPathBuf { if q.is_empty() { RepoPathBuf::root() } else { repo_path(&q.join("/")).to_owned() } }
 
 impl Env {
-    pub fn new() -> Env {
+    pub fn new() -> Env { Self::from_tw(TestWorkspace::init()) }
+    pub fn with_settings(settings: &jj_lib::settings::UserSettings) -> Env { Self::from_tw(TestWorkspace::init_with_settings(settings)) }
+    fn from_tw(tw: TestWorkspace) -> Env {
         install_hook();
-        let tw = TestWorkspace::init();
         let root = tw.workspace.workspace_root().to_owned();
         let canary = tw.env.root().join("canary");
         std::fs::create_dir_all(canary.join("sub")).unwrap();
